@@ -163,6 +163,7 @@ func Parse(prop string) *Ctx {
 	flag.Uint64Var(&seed, "seed", 1, "seed")
 	flag.StringVar(&c.Out, "out", "", "output dir")
 	flag.StringVar(&c.In, "in", "", "input file (search/replay)")
+	flag.StringVar(&c.Prop, "prop", prop, "property id (for binaries serving several properties)")
 	flag.Parse()
 	c.Seed = seed
 	c.Stats.Distribution = map[string]int{}
